@@ -695,9 +695,9 @@ def wl_chain(n: int = 2) -> Workflow:
     return workflow([stage("s%d" % i, ["s%d" % (i - 1)] if i else []) for i in range(n)])
 
 
-def wl_diamond(fail: str | None = None, cont: bool = False, join_tasks: int = 1) -> Workflow:
+def wl_diamond(fail: str | None = None, cont: bool = False, join_tasks: int = 1, stop: bool = False) -> Workflow:
     bt = {"t1": {"kind": "terminal"}} if fail == "b" else None
-    bctx = {"continuePipelineOnFailure": True} if cont else None
+    bctx = {"continuePipelineOnFailure": True} if cont else ({"failPipeline": False} if stop else None)
     return workflow(
         [
             stage("a"),
@@ -779,6 +779,19 @@ def wl_loop_skip() -> Workflow:
             stage("c", ["b"]),
             stage("d", ["c"], tasks={"t1": {"kind": "jump", "target": "a", "times": 1}}),
             stage("e", ["d"]),
+        ]
+    )
+
+
+def wl_skip_then_loop() -> Workflow:
+    """head -> mid -> tail -> end; head jumps forward to tail in its first run (mid is bypassed), tail jumps
+    back to head once; in the second iteration head does not jump, so the re-armed mid has to run."""
+    return workflow(
+        [
+            stage("head", tasks={"t1": {"kind": "jump_at", "target": "tail", "at": 0}}),
+            stage("mid", ["head"]),
+            stage("tail", ["mid"], tasks={"t1": {"kind": "jump", "target": "head", "times": 2}}),
+            stage("end", ["tail"]),
         ]
     )
 
@@ -899,6 +912,8 @@ WORKLOADS: dict[str, Callable[[], Workflow]] = {
     "sidejump": wl_sidejump,
     "selfloop2_exact": lambda: wl_selfloop(2, max_jumps=2),
     "loop_skip": wl_loop_skip,
+    "skip_then_loop": wl_skip_then_loop,
+    "diamond_stop": lambda: wl_diamond(fail="b", stop=True),
     "backjump1sib": lambda: wl_backjump(1, sibling=True),
     "fwdjump": wl_forward_jump,
     "joinjump": wl_joinjump,
